@@ -162,6 +162,47 @@ pub struct Case {
     pub key: String,
 }
 
+// ---------------------------------------------------------------- minimisation protocol (notes/minimisation.md)
+// A harness that supports minimisation regenerates case `--only <idx>` exactly as usual (same Rng stream), then
+// DROPS every element (operation of a history, edge of a graph, ...) whose position is not in `--keep p0,p1,...`
+// before running the implementation.  `Case` keeps its five fields (every harness builds it with an exhaustive
+// struct literal), so the element count travels as one reserved tag which `write_cases` strips again and emits as
+// `meta.json: "elements": [n | null per case]`.
+const ELEMENTS_TAG: &str = "#elements=";
+impl Case {
+    /// declare that this case was built from `n` droppable elements (positions 0..n)
+    pub fn with_elements(mut self, n: usize) -> Case {
+        self.tags.retain(|t| !t.starts_with(ELEMENTS_TAG));
+        self.tags.push(format!("{}{}", ELEMENTS_TAG, n));
+        self
+    }
+    pub fn elements(&self) -> Option<usize> {
+        self.tags.iter().find_map(|t| t.strip_prefix(ELEMENTS_TAG).and_then(|n| n.parse().ok()))
+    }
+}
+/// `--keep`: None = not given (keep everything, the normal run); `all` = every position, but through the
+/// harness' dropping code path (self-test: must reproduce the normal case); `none` or a comma-separated list.
+pub enum Keep { All, Only(std::collections::BTreeSet<usize>) }
+pub fn keep() -> Option<&'static Keep> {
+    static K: std::sync::OnceLock<Option<Keep>> = std::sync::OnceLock::new();
+    K.get_or_init(|| {
+        let v: Vec<String> = std::env::args().collect();
+        let p = v.iter().position(|a| a == "--keep")?;
+        let s = v.get(p + 1).cloned().unwrap_or_default();
+        Some(if s == "all" { Keep::All } else { Keep::Only(s.split(',').filter_map(|x| x.trim().parse().ok()).collect()) })
+    }).as_ref()
+}
+/// is element `pos` kept?  (always true without `--keep`)
+pub fn kept(pos: usize) -> bool {
+    match keep() { None | Some(Keep::All) => true, Some(Keep::Only(s)) => s.contains(&pos) }
+}
+/// the `--keep` argument as given (for descriptions / passing on to child processes)
+pub fn keep_arg() -> Option<String> {
+    let v: Vec<String> = std::env::args().collect();
+    let p = v.iter().position(|a| a == "--keep")?;
+    Some(v.get(p + 1).cloned().unwrap_or_default())
+}
+
 pub struct Args {
     pub seed: u64,
     pub n: u64,
@@ -226,17 +267,22 @@ pub fn write_cases(args: &Args, prop: &str, header: &str, ck: &str, cases: &[Cas
     }
     let mut hist: BTreeMap<String, u64> = BTreeMap::new();
     let mut keys = std::collections::BTreeSet::new();
+    let real = |t: &&String| !t.starts_with(ELEMENTS_TAG);
     for c in cases {
-        for t in &c.tags { *hist.entry(t.clone()).or_insert(0) += 1; }
+        for t in c.tags.iter().filter(real) { *hist.entry(t.clone()).or_insert(0) += 1; }
         if c.nontrivial { keys.insert(c.key.clone()); }
     }
-    let meta = serde_json::json!({
+    let mut meta = serde_json::json!({
         "property": prop, "seed": args.seed, "cases": cases.len(), "shards": shard_info,
         "distribution": hist, "distinct_nontrivial": keys.len(),
         "samples": cases.iter().take(3).map(|c| c.descr.clone()).collect::<Vec<_>>(),
         "descr": cases.iter().map(|c| c.descr.clone()).collect::<Vec<_>>(),
-        "tags": cases.iter().map(|c| c.tags.clone()).collect::<Vec<_>>(),
+        "tags": cases.iter().map(|c| c.tags.iter().filter(real).cloned().collect::<Vec<_>>()).collect::<Vec<_>>(),
         "extra": extra_meta,
     });
+    if cases.iter().any(|c| c.elements().is_some()) {
+        // minimisation protocol: number of droppable elements per case (null = the case has no element list)
+        meta["elements"] = serde_json::json!(cases.iter().map(|c| c.elements()).collect::<Vec<_>>());
+    }
     std::fs::write(format!("{}/meta.json", args.out), serde_json::to_string(&meta).unwrap()).unwrap();
 }
